@@ -4,6 +4,8 @@
 -/
 import AnyVecModel.Proofs.Splice
 import AnyVecModel.Proofs.KernelRange
+import AnyVecModel.Proofs.KernelDrainDrop
+import AnyVecModel.Proofs.KernelSpliceDrop
 import AnyVecModel.Props.Hist
 namespace AnyVec
 namespace C02
@@ -212,6 +214,28 @@ theorem into_range_is_the_source (len : Nat) (lo hi : Bnd) :
       | .panic m => .panic m
       | .ub m => .ub m :=
   KernelTie.into_range_tie len lo hi
+
+/-- **source tie**: the model's `impl Drop for Drain` is the execution of the commands `/repo/src/ops/drain.rs` issues
+(re-translated on this run): drop the items not yet yielded `[iter.index, iter.end)`, move the tail
+`original_len - end` slots from `end` down to `start`, `len := original_len - (end - start)`; and
+`move_elements_at` of `/repo/src/any_vec_ptr.rs` is one memmove of whole element slots on both compile-time paths. -/
+theorem drain_drop_is_the_source (it : RangeIt) (s d n : Nat) (known : Bool) :
+    drainDrop it =
+      KernelTie.runCmds { v := it.v, typed := it.typed }
+        (Gen.Kernel.drain_drop_cmds it.index it.end_ it.start it.end0 it.origLen) ∧
+    Gen.Kernel.move_elements_at_cmds s d n known = [.copy false s d n] :=
+  ⟨KernelTie.drain_drop_tie it, KernelTie.move_elements_at_tie s d n known⟩
+
+/-- **source tie**: the model's `impl Drop for Splice` is the `/repo/src/ops/splice.rs` one as re-translated on this
+run, in three parts: the commands before the write loop (the two overflow-checked sums, `reserve(new_len - start)`,
+the drop of the unyielded items, the move of the tail to `start + replace_len`), the loop itself (recognised
+structurally: at most `replace_len` values, each type-checked and moved to consecutive slots from `start` - the
+vector's current length - on), the commands after it (gap closed if the iterator ran short, `len` restored), and
+finally the replacement iterator is dropped; on unwind from a panic before the loop the iterator is dropped too. -/
+theorem splice_drop_is_the_source (cfg : Cfg) (w : World) (it : RangeIt) (repl : List Val) (claimed : Nat) (d : VecSt)
+    (hv : w.vecs[it.v]? = some d) (hl : d.live = true) (hlen : d.len = it.start) :
+    spliceDrop cfg it repl claimed w = KernelTie.spliceDropBySource cfg it repl claimed d w :=
+  KernelTie.splice_drop_tie cfg w it repl claimed d hv hl hlen
 
 end C02
 end AnyVec
